@@ -31,7 +31,7 @@ ASSUMPTIONS = [
     "timeouts fire only at quiescent moments (virtual clock)",
     "task exceptions and callback exceptions are Exception subclasses",
 ]
-EXHAUSTIVE = ["all schedules with at most k non-default scheduling choices of the 12 listed micro-programs (quick: k=3 sync / k=2 lines; thorough: k=4 / k=3; a program whose enumeration is truncated by the per-program limit is reported as dfs-program-truncated)"]
+EXHAUSTIVE = ["all schedules with at most k non-default scheduling choices of the 18 listed micro-programs (quick: k=3 sync / k=2 lines; thorough: k=4 / k=3; a program whose enumeration is truncated by the per-program limit is reported as dfs-program-truncated)"]
 
 _tp = [None]
 
@@ -115,6 +115,21 @@ def run_program(prog, chooser, lines=False, policy=()):
                 if ckind == "raise":
                     raise RuntimeError("callback failed")
                 return "ignored"
+            if ckind in ("method", "callable-object", "partial"):
+                # other forms of callable: a bound method of an object that only the registration
+                # references, an instance with __call__, a functools.partial
+                import functools
+
+                class Handler(object):
+                    def on_done(self, result, exception, extra):
+                        return cb(result, exception, extra)
+
+                    __call__ = on_done
+                if ckind == "method":
+                    return Handler().on_done
+                if ckind == "callable-object":
+                    return Handler()
+                return functools.partial(lambda tag, *a: cb(*a), "tag")
             return cb
 
         shared = {}
@@ -138,17 +153,18 @@ def run_program(prog, chooser, lines=False, policy=()):
                         cell["rid"] = rid
                     else:
                         extra = ("extra", rid)
-                        cb_obj = make_cb(rid, op[1])
+                        cb_obj = None
                     no_extra = op[1].startswith("flex")
                     if no_extra:
                         extra = None
                     state["objs"][rid] = extra
                     sched.emit("reg-begin", reg=rid, ckind=op[1])
                     try:
+                        # the callable is handed over without keeping another reference to it
                         if no_extra:
-                            fut.set_callback(cb_obj)      # registration without the extra parameter
+                            fut.set_callback(cb_obj or make_cb(rid, op[1]))      # registration without the extra parameter
                         else:
-                            fut.set_callback(cb_obj, extra)
+                            fut.set_callback(cb_obj or make_cb(rid, op[1]), extra)
                         sched.emit("reg-end", reg=rid, raised=None)
                     except Exception as ex:
                         sched.emit("reg-end", reg=rid, raised=ex)
@@ -370,6 +386,8 @@ MICRO = [
     {"task": "ret", "threads": [[("cb", "ok")], [("cb", "ok")]], "exec_first": True},
     {"task": "ret", "threads": [[("cb", "same"), ("result", None), ("cb", "same"), ("cb", "same")]], "exec_first": True},
     {"task": "raise", "threads": [[("cb", "same"), ("cb", "same")]], "exec_first": False},
+    {"task": "ret", "threads": [[("cb", "method")]], "exec_first": False},
+    {"task": "gated-raise", "threads": [[("cb", "callable-object"), ("cb", "method"), ("result", None)]], "exec_first": True},
     {"task": "ret", "threads": [[("cb", "flex-typeerror"), ("result", None), ("cb", "flex-typeerror")]], "exec_first": True},
     {"task": "raise", "threads": [[("cb", "flex-ok")], [("cb", "flex-typeerror")]], "exec_first": False},
 ]
@@ -423,7 +441,7 @@ def dfs_oracle(case):
 
 
 ops = st.one_of(
-    st.tuples(st.just("cb"), st.sampled_from(["ok", "ok", "raise", "arity", "same", "same", "flex-typeerror", "flex-ok"])),
+    st.tuples(st.just("cb"), st.sampled_from(["ok", "ok", "raise", "arity", "same", "same", "flex-typeerror", "flex-ok", "method", "method", "callable-object", "partial"])),
     st.just(("done",)),
     st.tuples(st.just("result"), st.sampled_from([None, 0.5, 2.0])),
 )
@@ -456,7 +474,7 @@ SUBS = [
 
 CLAIM = {
     "technique": "schedule-owning property-based testing: bounded-exhaustive enumeration of thread schedules plus Hypothesis-generated programs and schedules, history oracle",
-    "text": "The real FutureResult code runs on real threads serialised by a deterministic scheduler; all schedules with <= k non-default choices of 12 micro-programs are enumerated (sync and line granularity) and thousands of generated (program, schedule) pairs are run; a history oracle checks done/result/callback protocol. Exhaustive only within the preemption bound on the listed programs.",
+    "text": "The real FutureResult code runs on real threads serialised by a deterministic scheduler; all schedules with <= k non-default choices of 18 micro-programs are enumerated (sync and line granularity) and thousands of generated (program, schedule) pairs are run; a history oracle checks done/result/callback protocol. Exhaustive only within the preemption bound on the listed programs.",
     "note": "Trusts vlib/detsched.py (simulated Lock/RLock/Condition/Event/Thread with FIFO wake-up and a virtual clock) to produce only legal CPython executions; granularity is synchronisation operations and source lines, not bytecodes.",
     "design_ref": "DESIGN.md section 4, C16; section 2.2 E2",
     "engine": "E2",
